@@ -175,4 +175,175 @@ THEOREM Safety == SpecD => []Authentic
   <1>3. Ind => Authentic
     BY DEF Ind
   <1> QED BY <1>1, <1>2, <1>3, PTL DEF SpecD
+
+\* ---- the key store: typed, and closed channels stay closed ------------------------------------------------------
+KeyKinds == {"local", "secret", "public"}
+BlobT == [form : {"plain", "pie", "pw", "seal"}, kind : KeyKinds, label : KeyKinds, key : Slots, under : {"own", "other"}, intact : BOOLEAN]
+MatOf(kk) == IF kk = "local" THEN "local" ELSE "pair"
+
+GenTyped == gen \in [Slots -> {"none", "local", "pair"}]
+BlobsTyped == blobs \in Seq(BlobT)
+BlobInv == \A k \in 1..Len(blobs) :
+             /\ gen[blobs[k].key] = MatOf(blobs[k].kind)
+             /\ (blobs[k].form \in {"pie", "pw"} /\ blobs[k].under = "own" => blobs[k].key # Evil)
+StoreInv == \A e \in store : e.kind \in Kinds /\ e.key \in Slots /\ gen[e.key] = Material(e.kind)
+
+Ind2 == GenTyped /\ BlobsTyped /\ BlobInv /\ StoreInv /\ ClosedChannels
+
+LEMMA Init2 == Init => Ind2
+  BY DEF Init, Ind2, GenTyped, BlobsTyped, BlobInv, StoreInv, ClosedChannels
+
+\* appending a blob that satisfies the per-blob conditions
+LEMMA SendKeeps2 ==
+  ASSUME Ind2, NEW b \in BlobT, Send(b),
+         gen[b.key] = MatOf(b.kind),
+         b.form \in {"pie", "pw"} /\ b.under = "own" => b.key # Evil
+  PROVE Ind2'
+  <1>1. blobs' = Append(blobs, b) /\ UNCHANGED <<gen, store, via>>
+    BY DEF Send
+  <1>2. BlobsTyped'
+    BY <1>1, AppendProperties DEF Ind2, BlobsTyped
+  <1>3. BlobInv'
+    <2> SUFFICES ASSUME NEW k \in 1..Len(blobs')
+                 PROVE /\ gen'[blobs'[k].key] = MatOf(blobs'[k].kind)
+                       /\ (blobs'[k].form \in {"pie", "pw"} /\ blobs'[k].under = "own" => blobs'[k].key # Evil)
+      BY DEF BlobInv
+    <2>1. Len(blobs') = Len(blobs) + 1 /\ blobs'[Len(blobs) + 1] = b /\ \A j \in 1..Len(blobs) : blobs'[j] = blobs[j]
+      BY <1>1, AppendProperties DEF Ind2, BlobsTyped
+    <2>2. CASE k \in 1..Len(blobs)
+      BY <1>1, <2>1, <2>2 DEF Ind2, BlobInv
+    <2>3. CASE k = Len(blobs) + 1
+      BY <1>1, <2>1, <2>3
+    <2> QED BY <2>1, <2>2, <2>3 DEF Ind2, BlobsTyped
+  <1>4. GenTyped' /\ StoreInv' /\ ClosedChannels'
+    BY <1>1 DEF Ind2, GenTyped, StoreInv, ClosedChannels
+  <1> QED BY <1>2, <1>3, <1>4 DEF Ind2
+
+LEMMA GenKeyKeeps2 == ASSUME Ind2, NEW s \in Slots, NEW m \in {"local", "pair"}, GenKey(s, m) PROVE Ind2'
+  <1>1. gen[s] = "none" /\ gen' = [gen EXCEPT ![s] = m] /\ UNCHANGED <<store, via, blobs>>
+    BY DEF GenKey
+  <1>2. GenTyped'
+    BY <1>1 DEF Ind2, GenTyped
+  <1>3. \A t \in Slots : gen[t] # "none" => gen'[t] = gen[t]
+    BY <1>1 DEF Ind2, GenTyped
+  <1>4. BlobInv'
+    <2> SUFFICES ASSUME NEW k \in 1..Len(blobs) PROVE gen'[blobs[k].key] = MatOf(blobs[k].kind)
+      BY <1>1 DEF Ind2, BlobInv
+    <2>1. blobs[k] \in BlobT /\ gen[blobs[k].key] = MatOf(blobs[k].kind)
+      BY DEF Ind2, BlobsTyped, BlobInv
+    <2>2. gen[blobs[k].key] # "none" /\ blobs[k].key \in Slots
+      BY <2>1 DEF MatOf, BlobT
+    <2> QED BY <1>3, <2>1, <2>2
+  <1>5. StoreInv'
+    <2> SUFFICES ASSUME NEW e \in store PROVE gen'[e.key] = Material(e.kind)
+      BY <1>1 DEF Ind2, StoreInv
+    <2>1. e.key \in Slots /\ gen[e.key] = Material(e.kind)
+      BY DEF Ind2, StoreInv
+    <2>2. gen[e.key] # "none"
+      BY <2>1 DEF Material
+    <2> QED BY <1>3, <2>1, <2>2
+  <1>6. BlobsTyped' /\ ClosedChannels'
+    BY <1>1 DEF Ind2, BlobsTyped, ClosedChannels
+  <1> QED BY <1>2, <1>4, <1>5, <1>6 DEF Ind2
+
+LEMMA ImportKeeps2 == ASSUME Ind2, NEW i \in 1..MaxBlobs, Import(i) PROVE Ind2'
+  <1> DEFINE b == blobs[i]
+             e == [kind |-> StoredAs(b.label), key |-> b.key]
+  <1>1. i \in 1..Len(blobs) /\ UNCHANGED <<gen, blobs>>
+    BY DEF Import
+  <1>2. b \in BlobT /\ gen[b.key] = MatOf(b.kind) /\ (b.form \in {"pie", "pw"} /\ b.under = "own" => b.key # Evil)
+    BY <1>1 DEF Ind2, BlobsTyped, BlobInv
+  <1>3. CASE ~ImportOk(b)
+    <2>1. UNCHANGED <<store, via>>
+      BY <1>3 DEF Import
+    <2> QED BY <1>1, <2>1 DEF Ind2, GenTyped, BlobsTyped, BlobInv, StoreInv, ClosedChannels
+  <1>4. CASE ImportOk(b)
+    <2>1. store' = store \cup {e} /\ via' = via \cup {[kind |-> e.kind, key |-> e.key, form |-> b.form]}
+      BY <1>4 DEF Import
+    <2>2. b.label = b.kind /\ b.under = "own"
+      BY <1>4, NotWeakened DEF ImportOk
+    <2>3. e.kind \in Kinds /\ e.key \in Slots /\ gen[e.key] = Material(e.kind)
+      BY <1>2, <2>2 DEF StoredAs, Material, MatOf, Kinds, BlobT, KeyKinds
+    <2>4. StoreInv'
+      BY <1>1, <2>1, <2>3 DEF Ind2, StoreInv
+    <2>5. ClosedChannels'
+      BY <1>2, <2>1, <2>2 DEF Ind2, ClosedChannels
+    <2> QED BY <1>1, <2>4, <2>5 DEF Ind2, GenTyped, BlobsTyped, BlobInv
+  <1> QED BY <1>3, <1>4
+
+LEMMA ForgetKeeps2 == ASSUME Ind2, NEW k, NEW s, Forget(k, s) PROVE Ind2'
+  <1>1. store' \subseteq store /\ via' \subseteq via /\ UNCHANGED <<gen, blobs>>
+    BY DEF Forget
+  <1> QED BY <1>1 DEF Ind2, GenTyped, BlobsTyped, BlobInv, StoreInv, ClosedChannels
+
+LEMMA Frame2 == ASSUME Ind2, UNCHANGED <<gen, store, via, blobs>> PROVE Ind2'
+  BY DEF Ind2, GenTyped, BlobsTyped, BlobInv, StoreInv, ClosedChannels
+
+LEMMA TamperKeeps2 == ASSUME Ind2, NEW i \in 1..MaxBlobs, NEW h \in {"flip", "relabel"}, TamperBlob(i, h) PROVE Ind2'
+  <1>1. i \in 1..Len(blobs)
+    BY DEF TamperBlob
+  <1>2. blobs[i] \in BlobT /\ gen[blobs[i].key] = MatOf(blobs[i].kind)
+        /\ (blobs[i].form \in {"pie", "pw"} /\ blobs[i].under = "own" => blobs[i].key # Evil)
+    BY <1>1 DEF Ind2, BlobsTyped, BlobInv
+  <1>3. CASE h = "flip" /\ Send([blobs[i] EXCEPT !.intact = FALSE])
+    <2> DEFINE nb == [blobs[i] EXCEPT !.intact = FALSE]
+    <2>1. nb \in BlobT /\ nb.key = blobs[i].key /\ nb.kind = blobs[i].kind /\ nb.form = blobs[i].form /\ nb.under = blobs[i].under
+      BY <1>2 DEF BlobT
+    <2> QED BY <1>2, <1>3, <2>1, SendKeeps2
+  <1>4. CASE h = "relabel" /\ Send([blobs[i] EXCEPT !.label = Flip(@)])
+    <2> DEFINE nb == [blobs[i] EXCEPT !.label = Flip(@)]
+    <2>1. nb \in BlobT /\ nb.key = blobs[i].key /\ nb.kind = blobs[i].kind /\ nb.form = blobs[i].form /\ nb.under = blobs[i].under
+      BY <1>2 DEF BlobT, Flip, KeyKinds
+    <2> QED BY <1>2, <1>4, <2>1, SendKeeps2
+  <1> QED BY <1>3, <1>4 DEF TamperBlob
+
+LEMMA NextKeeps2 == ASSUME Ind2, [NextD]_vars PROVE Ind2'
+  <1>1. CASE UNCHANGED vars
+    BY <1>1, Frame2 DEF vars
+  <1>2. CASE \E s \in Slots, m \in {"local", "pair"} : GenKey(s, m)
+    BY <1>2, GenKeyKeeps2
+  <1>3. CASE \E s \in Slots : SendPlain(s)
+    <2>1. PICK s \in Slots : SendPlain(s)
+      BY <1>3
+    <2>2. Blob("plain", "public", s, "own") \in BlobT
+      BY DEF Blob, BlobT, KeyKinds
+    <2> QED BY <2>1, <2>2, SendKeeps2 DEF SendPlain, Blob, MatOf
+  <1>4. CASE \E f \in {"pie", "pw"}, s \in Slots, k \in {"local", "secret"}, u \in {"own", "other"} : SendWrapped(f, s, k, u)
+    <2>1. PICK f \in {"pie", "pw"}, s \in Slots, k \in {"local", "secret"}, u \in {"own", "other"} : SendWrapped(f, s, k, u)
+      BY <1>4
+    <2>2. Blob(f, k, s, u) \in BlobT
+      BY DEF Blob, BlobT, KeyKinds
+    <2> QED BY <2>1, <2>2, SendKeeps2 DEF SendWrapped, Blob, MatOf
+  <1>5. CASE \E s \in Slots, u \in {"own", "other"} : SendSeal(s, u)
+    <2>1. PICK s \in Slots, u \in {"own", "other"} : SendSeal(s, u)
+      BY <1>5
+    <2>2. Blob("seal", "local", s, u) \in BlobT
+      BY DEF Blob, BlobT, KeyKinds
+    <2> QED BY <2>1, <2>2, SendKeeps2 DEF SendSeal, Blob, MatOf
+  <1>6. CASE \E i \in 1..MaxBlobs, h \in {"flip", "relabel"} : TamperBlob(i, h)
+    BY <1>6, TamperKeeps2
+  <1>7. CASE \E i \in 1..MaxBlobs : Import(i)
+    BY <1>7, ImportKeeps2
+  <1>8. CASE \E k \in Kinds, s \in Slots : Forget(k, s)
+    BY <1>8, ForgetKeeps2
+  <1>9. CASE \E s \in Slots, k \in Kinds, c \in ClaimSet, n \in NoteSet, t \in Slots, ttl \in 0..1 : Issue(s, k, c, n, t, ttl)
+    BY <1>9, Frame2 DEF Issue, Emit
+  <1>10. CASE \E i \in 1..MaxNet, j \in 1..MaxNet : Refoot(i, j)
+    BY <1>10, Frame2 DEF Refoot, Emit
+  <1>11. CASE \E i \in 1..MaxNet : Relabel(i)
+    BY <1>11, Frame2 DEF Relabel, Emit
+  <1>12. CASE \E i \in 1..MaxNet : Verify(i)
+    BY <1>12, Frame2 DEF Verify
+  <1>13. CASE Tick
+    BY <1>13, Frame2 DEF Tick
+  <1> QED BY <1>1, <1>2, <1>3, <1>4, <1>5, <1>6, <1>7, <1>8, <1>9, <1>10, <1>11, <1>12, <1>13 DEF NextD
+
+THEOREM StoreSafety == SpecD => [](StoreTyped /\ ClosedChannels)
+  <1>1. Init => Ind2
+    BY Init2
+  <1>2. Ind2 /\ [NextD]_vars => Ind2'
+    BY NextKeeps2
+  <1>3. Ind2 => StoreTyped /\ ClosedChannels
+    BY DEF Ind2, StoreInv, StoreTyped
+  <1> QED BY <1>1, <1>2, <1>3, PTL DEF SpecD
 =============================================================================
